@@ -14,7 +14,9 @@ CONSTANTS
   ScriptFam,    \* set of scripts (sequences of nested nodes) user code may run
   UpFam,        \* subset of BOOLEAN: may user code panic
   Vias,         \* final verification entry points
-  EmitOn        \* print behaviours
+  EmitOn,       \* print behaviours
+  OnlyMentioned, \* restrict top-level calls to methods some clause mentions (cuts uninteresting histories)
+  StopAfterDeviation \* no further calls once an ordered call deviated (C04 is silent about what follows)
 
 Seg(k, q, n) == [k |-> k, q |-> q, n |-> n]
 Pat(pred, chain) == [pred |-> pred, chain |-> chain]
@@ -29,6 +31,8 @@ NodeFam == [m : Method, a : Arg, sc : ScriptFam, up : UpFam]
 
 MCInit == \E c \in CfgFam : InitWith(c)
 MCCall(node) ==
+  /\ (OnlyMentioned => node.m \in DOMAIN tab)
+  /\ (StopAfterDeviation => \A j \in 1..Len(OrdDisp) : ~Deviates(OrdDisp[j]))
   /\ Call(node)
   \* a default body runs on the delegation helper, which implements the required methods only
   /\ (node.sc # <<>> /\ WhoRuns(state, node.m, node.a) = "default") =>
@@ -41,8 +45,16 @@ StepOut(h) == IF h.op = "call"
               THEN [op |-> "call", m |-> h.node.m, a |-> h.node.a, sc |-> h.node.sc, up |-> h.node.up,
                     log |-> h.log, out |-> h.out]
               ELSE [op |-> "finish", via |-> h.via, v |-> h.v]
+\* per configured returns(v): id, whether it is single-use, how often it was delivered
+ValSegs == { <<o, g>> \in AllPats(tab) \X (1..4) : g <= Len(tab[o[1]].pats[o[2]].chain) /\ tab[o[1]].pats[o[2]].chain[g].k = "val" }
+ValReport == { [id |-> ValId(tab[x[1][1]].pats[x[1][2]], x[2]),
+                owned |-> RetOwned[x[1][1]],
+                single |-> RetOwned[x[1][1]] /\ SingleUse(tab[x[1][1]].pats[x[1][2]].form, x[2], tab[x[1][1]].pats[x[1][2]].chain[x[2]]),
+                delivered |-> Cardinality({ j \in 1..Len(AllDisp) : AllDisp[j].m = x[1][1] /\ AllDisp[j].sel = x[1][2]
+                                              /\ AllDisp[j].seg = x[2] /\ AllDisp[j].d.k = "ret" })] : x \in ValSegs }
 Beh == [strict |-> cfg.strict, leaves |-> cfg.leaves, new |-> newErr,
-        steps |-> [j \in 1..Len(hist) |-> StepOut(hist[j])]]
+        steps |-> [j \in 1..Len(hist) |-> StepOut(hist[j])],
+        vals |-> IF phase = "done" THEN ValReport ELSE {}]
 Emit == (EmitOn /\ phase \in {"done", "newerr"}) => PrintT(<<"REPLAY", ToJson(Beh)>>)
 
 \* ---- universe facts (harness/src/universe.rs) ----
@@ -61,14 +73,91 @@ cViaDrop == {"drop"}
 \* ---- menus ----
 PredFam == SUBSET Arg
 
-\* C01: chains that get exhausted or over-matched, so that "no matter how often matched before" is exercised
-C01Chains == { <<"each", <<Seg("val", "none", 0)>> >>,
-               <<"some", <<Seg("val", "none", 0)>> >>,
-               <<"each", <<Seg("val", "n", 1)>> >>,
-               <<"each", <<Seg("val", "n", 1), Seg("val", "none", 0)>> >>,
-               <<"some", <<Seg("answer", "none", 0)>> >>,
-               <<"each", <<Seg("val", "atleast", 2)>> >> }
-C01Leaves == { Leaf1(m, c[1], p, c[2]) : m \in {"r0", "r1"}, c \in C01Chains, p \in PredFam }
-               \cup { Leaf1("r2", "next", Arg, <<Seg("val", "none", 0)>>) }   \* ordered bystander
-               \cup { Leaf("r0", "stub", <<Pat(p, <<Seg("val", "none", 0)>>), Pat(q, <<Seg("val", "n", 1)>>)>>) : p, q \in PredFam }
+V(q, n) == Seg("val", q, n)
+Open == <<V("none", 0)>>
+
+\* ---------------- C01: first declared matching pattern ----------------
+\* chains that get exhausted or over-matched, so that "no matter how often matched before" is exercised
+C01Chains == { <<"each", Open>>, <<"some", Open>>, <<"each", <<V("n", 1)>> >>,
+               <<"each", <<V("n", 1), V("none", 0)>> >>, <<"some", <<Seg("answer", "none", 0)>> >>,
+               <<"each", <<V("atleast", 2)>> >> }
+C01LeavesQ == { Leaf1("r0", c[1], p, c[2]) : c \in C01Chains, p \in PredFam }
+               \cup { Leaf1("r1", "each", p, Open) : p \in {Arg, {}} }                   \* another method
+               \cup { Leaf1("r2", "next", Arg, Open) }                                    \* ordered bystander
+               \cup { Leaf("r0", "stub", <<Pat(p, Open), Pat(q, <<V("n", 1)>>)>>) : p, q \in {{0}, Arg} }
+C01LeavesT == { Leaf1(m, c[1], p, c[2]) : m \in {"r0", "r1"}, c \in C01Chains, p \in PredFam }
+               \cup { Leaf1("r2", "next", Arg, Open) }
+               \cup { Leaf("r0", "stub", <<Pat(p, Open), Pat(q, <<V("n", 1)>>)>>) : p, q \in PredFam }
+               \cup { Leaf("r0", "stub", <<Pat(p, <<V("n", 1)>>), Pat(q, Open), Pat(Arg, <<Seg("panic", "none", 0)>>)>>) : p, q \in PredFam }
+
+\* ---------------- C02: k-th response of a quantifier chain ----------------
+KindsQ == {"val", "answer", "panic", "unmock"}
+KindsT == {"val", "default", "answer", "answer_arc", "panic", "unmock", "dflt"}
+ExactQs(N) == {<<"once", 0>>} \cup { <<"n", n>> : n \in N }
+EndQs(N) == {<<"none", 0>>} \cup ExactQs(N) \cup { <<"atleast", n>> : n \in N }
+Chains1(K, N) == { <<Seg(k, q[1], q[2])>> : k \in K, q \in EndQs(N) }
+Chains2(K, N) == { <<Seg(k1, q1[1], q1[2]), Seg(k2, q2[1], q2[2])>> : k1 \in K, k2 \in K, q1 \in ExactQs(N), q2 \in EndQs(N) }
+Chains3(K, N) == { <<Seg(k1, q1[1], q1[2]), Seg(k2, q2[1], q2[2]), Seg(k3, q3[1], q3[2])>> :
+                     k1 \in K, k2 \in K, k3 \in K, q1 \in ExactQs(N), q2 \in ExactQs(N), q3 \in EndQs(N) }
+WellTyped(m, form, chain) == TypeChecks(form, chain, m # "t0")
+C02Leaves(Ms, Fs, Cs) == { l \in { Leaf1(m, f, {0}, c) : m \in Ms, f \in Fs, c \in Cs } : WellTyped(l.m, l.form, l.pats[1].chain) }
+C02LeavesQ == C02Leaves({"r1"}, Forms, Chains1(KindsQ, {0, 2}) \cup Chains2(KindsQ, {0, 2}))
+              \cup C02Leaves({"t0"}, {"some", "next"}, Chains1({"val", "answer"}, {2}) \cup Chains2({"val", "answer", "panic"}, {1}))
+C02LeavesT == C02Leaves({"r1", "d1"}, Forms, Chains1(KindsT, 0..3) \cup Chains2(KindsT, 0..2))
+              \cup C02Leaves({"r0"}, {"each", "next"}, Chains3({"val", "answer"}, 0..2))
+              \cup C02Leaves({"t0", "b0"}, Forms, Chains1({"val", "answer"}, 0..2) \cup Chains2({"val", "answer", "panic"}, 0..2))
+
+\* ---------------- C03: verdict iff unmet ----------------
+C03Chains == { <<V("none", 0)>>, <<V("once", 0)>>, <<V("n", 0)>>, <<V("n", 2)>>, <<V("atleast", 1)>>, <<V("atleast", 2)>>,
+               <<V("once", 0), V("none", 0)>>, <<V("n", 2), V("atleast", 1)>>, <<V("n", 0), V("none", 0)>> }
+C03LeavesQ == { Leaf1(m, "each", p, c) : m \in {"r0", "r1"}, p \in {{0}, Arg}, c \in C03Chains }
+              \cup { Leaf1("r0", "some", {1}, Open), Leaf1("r2", "next", {0}, <<V("n", 2)>>) }
+C03LeavesT == { Leaf1(m, f, p, c) : m \in {"r0", "r1"}, f \in {"each", "some"}, p \in PredFam \ {{}}, c \in C03Chains }
+              \cup { Leaf1("r2", "next", {0}, c) : c \in {<<V("n", 2)>>, Open, <<V("n", 1), V("n", 1)>>} }
+              \cup { Leaf("r1", "stub", <<Pat({0}, c), Pat(Arg, d)>>) : c, d \in {<<V("n", 1)>>, <<V("atleast", 1)>>, Open} }
+
+\* ---------------- C04: ordered sequence ----------------
+C04Chains == { Open, <<V("n", 2)>>, <<V("n", 0)>>, <<V("n", 1), V("none", 0)>>, <<Seg("answer", "n", 2)>>, <<V("once", 0), Seg("panic", "once", 0)>> }
+C04LeavesQ == { Leaf1("r0", "next", {0}, c) : c \in C04Chains \ {<<Seg("answer", "n", 2)>>} }
+              \cup { Leaf1("r0", "next", Arg, Open) }
+              \cup { Leaf1("r1", "next", {0}, c) : c \in {Open, <<V("n", 2)>>, <<V("n", 1), V("none", 0)>>} }
+              \cup { Leaf1("r2", "each", Arg, Open) }
+C04LeavesT == { Leaf1(m, "next", p, c) : m \in {"r0", "r1", "d0"}, p \in {{0}, {1}, Arg}, c \in C04Chains \cup {<<V("n", 3)>>, <<V("n", 1), V("n", 2)>>} }
+              \cup { Leaf1("r2", f, Arg, Open) : f \in {"each", "some"} }
+
+\* ---------------- C07: unanswered calls ----------------
+C07Leaves == { Leaf1(m, f, p, c) : m \in {"r0", "r1", "d0", "d1"}, f \in {"each", "next"}, p \in {{0}, {}},
+                                   c \in {Open, <<Seg("unmock", "none", 0)>>, <<Seg("dflt", "none", 0)>>} }
+             \cup { Leaf1("r2", "each", Arg, Open) }
+
+\* ---------------- C08: every mock-induced error is remembered; user panics are not ----------------
+C08Leaves == { Leaf1("r0", "each", {0}, <<Seg("panic", "none", 0)>>), Leaf1("r0", "some", {0}, Open),
+               Leaf1("r0", "each", {0}, <<Seg("unmock", "none", 0)>>), Leaf1("r0", "each", {0}, <<Seg("dflt", "none", 0)>>),
+               Leaf1("r0", "next", {0}, Open), Leaf("r0", "stub", <<[pred |-> {0}, chain |-> <<V("n", 1)>>]>>),
+               Leaf1("r1", "each", Arg, <<Seg("answer", "none", 0)>>), Leaf1("r1", "each", Arg, <<Seg("unmock", "none", 0)>>),
+               Leaf1("d0", "next", {1}, <<Seg("dflt", "none", 0)>>), Leaf1("r2", "each", {1}, Open) }
+
+\* ---------------- C12: single-use values ----------------
+C12Leaves == { Leaf1(m, f, p, c) : m \in {"t0", "r0"}, f \in {"some", "next"}, p \in {{0}, Arg},
+                                   c \in {Open, <<V("once", 0)>>, <<V("once", 0), Seg("answer", "none", 0)>>, <<V("once", 0), Seg("panic", "n", 1)>>} }
+             \cup { Leaf1("r0", f, Arg, c) : f \in {"some", "each"}, c \in {<<V("n", 2)>>, <<V("n", 1)>>, <<V("atleast", 1)>>} }
+             \cup { Leaf1("b0", "some", Arg, Open), Leaf1("b0", "each", Arg, <<V("n", 2)>>) }
+
+\* ---------------- C15 / C16: user code calling back into the mock ----------------
+NestedFam(Ms) == { N0(m, a) : m \in Ms, a \in Arg }
+Scripts(Ms, n) == SeqsUpTo(NestedFam(Ms), n)
+C15Leaves == { Leaf1("d0", f, Arg, <<Seg("dflt", q[1], q[2])>>) : f \in {"each", "next"}, q \in {<<"none", 0>>, <<"n", 2>>} }
+             \cup { Leaf1("r0", f, p, c) : f \in {"each", "next"}, p \in {{0}, Arg}, c \in {Open, <<V("n", 2)>>, <<V("n", 1), V("none", 0)>>} }
+             \cup { Leaf1("r1", "next", Arg, Open), Leaf1("d1", "each", {0}, Open) }
+C16Leaves == { Leaf1(m, f, p, <<Seg("unmock", q[1], q[2])>>) : m \in {"r1", "d1"}, f \in {"each", "next"}, p \in {{0}, Arg}, q \in {<<"none", 0>>, <<"n", 1>>} }
+             \cup { Leaf1("r0", f, Arg, c) : f \in {"each", "next"}, c \in {Open, <<V("n", 2)>>} }
+             \cup { Leaf1("r0", "each", Arg, <<Seg("unmock", "none", 0)>>), Leaf1("r1", "each", {1}, <<Seg("answer", "none", 0)>>) }
+cScripts1 == Scripts(Method \ {"t0", "b0"}, 1)
+cScripts2 == Scripts({"r0", "r1"}, 2)
+cScriptsReq2 == Scripts({"r0", "r1"}, 2)
+\* depth-2 scripts: user code whose nested call runs user code again (recursion through the mock)
+cScriptsDeep == {<<>>} \cup { <<[m |-> m, a |-> a, sc |-> sc, up |-> FALSE]>> : m \in {"r1", "d1"}, a \in Arg, sc \in Scripts({"r0", "r1"}, 1) }
+cUpBoth == BOOLEAN
+cViaAll == {"drop", "verify", "report"}
+cViaVerify == {"verify"}
 =============================================================================
